@@ -18,6 +18,8 @@ ExecOnce == Complete => \A k \in 1..Len(R.reqs) : LET q == R.reqs[k] IN
 \* server_close() returns once in-flight requests complete, and then every worker of the pool has terminated
 CloseTerminates == (Complete /\ R.closed) => R.close_returned
 NoDeadlock == R.end # "deadlock"
+\* an accepted connection is always answered, whatever the schedule (a stranded request shows as a blocked close)
+EveryRequestAnswered == R.end \in {"done", "deadlock"} => \A k \in 1..Len(R.reqs) : R.reqs[k].answered
 PoolWorkersDieAfter == (Complete /\ R.close_returned) => R.alive_workers = <<>>
 Flag(name) == PrintT(<<"PROPFAIL", i, name>>)
 Monitor == /\ OwnReply \/ Flag("OwnReply")
@@ -25,4 +27,5 @@ Monitor == /\ OwnReply \/ Flag("OwnReply")
            /\ CloseTerminates \/ Flag("CloseTerminates")
            /\ NoDeadlock \/ Flag("CloseTerminates")
            /\ PoolWorkersDieAfter \/ Flag("PoolWorkersDieAfter")
+           /\ EveryRequestAnswered \/ Flag("EveryRequestAnswered")
 =============================================================================
